@@ -93,20 +93,25 @@ def current_recipes(ctx):
 
 def init_image(ctx):
     """constants the creation function stores into the initial image"""
-    fn = ctx.A.get('init_file')
-    if fn is None:
+    root = ctx.A.get('init_file')
+    if root is None:
         return None
     img = dict(page_types=[], meta={}, root=None, counts=[])
-    for bb, si, s in stores_to_field(fn, 'Page', 'page_type'):
-        img['page_types'].append(op_const_val(s['rv']['op']) if s['rv']['k'] == 'use' else None)
-    for fld in ('freelist_page', 'num_pages', 'magic', 'version'):
-        for bb, si, s in stores_to_field(fn, 'Meta', fld):
-            if s['rv']['k'] == 'use':
-                img['meta'][fld] = op_const_val(s['rv']['op'])
-    for bb, si, s in aggregates_of(fn, 'BucketMeta'):
-        img['root'] = [op_const_val(o) for o in s['rv']['ops']]
-    for bb, si, s in stores_to_field(fn, 'Page', 'count'):
-        img['counts'].append(op_const_val(s['rv']['op']) if s['rv']['k'] == 'use' else None)
+    # the creation function and the local helpers it calls (e.g. an extracted "initialise one meta page")
+    fns = sorted((g for g in ctx.facts.reachable_fns([root]) if g.kind != 'Closure' or g.owner is root), key=lambda f: f.path)
+    cs = ctx.A.get('checksum-role')
+    fns = [g for g in fns if g is root or (g.kind in ('Fn',) and g is not ctx.A.get('open_file'))]
+    for fn in fns:
+        for bb, si, s in stores_to_field(fn, 'Page', 'page_type'):
+            img['page_types'].append(op_const_val(s['rv']['op']) if s['rv']['k'] == 'use' else None)
+        for fld in ('freelist_page', 'num_pages', 'magic', 'version'):
+            for bb, si, s in stores_to_field(fn, 'Meta', fld):
+                if s['rv']['k'] == 'use':
+                    img['meta'][fld] = op_const_val(s['rv']['op'])
+        for bb, si, s in aggregates_of(fn, 'BucketMeta'):
+            img['root'] = [op_const_val(o) for o in s['rv']['ops']]
+        for bb, si, s in stores_to_field(fn, 'Page', 'count'):
+            img['counts'].append(op_const_val(s['rv']['op']) if s['rv']['k'] == 'use' else None)
     img['page_types'] = sorted(x for x in img['page_types'] if x is not None)
     return img
 
@@ -248,32 +253,28 @@ def legacy_fallback(ctx, rule='C15.legacy-fallback'):
 
 def header_image(ctx, rule='C15.header-image'):
     res = []
-    import commit
-    T = commit.commit_trace(ctx)
-    H = [e for e in T.events('W') if e.get('sub') == 'H' and not e.get('summary')]
-    if not H:
-        return [floor(rule, 'header writes in the commit trace', 0, 1)]
+    import c02
+    builders = c02.image_builders(ctx)
+    if not builders:
+        return [floor(rule, 'header-image builders in the commit trace', 0, 1)]
     F = ctx.facts
     fields = [f['name'] for f in F.adt_fields('Meta')]
-    n = T.nodes[H[0]['node']]
-    fn = n.fn
-    du = ctx.du(fn)
-    for fld in fields:
-        st = stores_to_field(fn, 'Meta', fld)
-        # only stores through a pointer into the image (not into the transaction's own Meta): destination root local is not `self`
-        st = [(bb, si, s) for bb, si, s in st if not (s['p']['l'] == 1)]
-        if not st:
-            res.append(bad(rule, '%s | Meta.%s not written into the header image' % (fn.qual, fld),
-                           'the header image written by commit never assigns Meta.%s: the field would be left zero in the file' % fld, where=H[0]['loc']))
-            continue
-        if fld in ('meta_page', 'hash'):
-            res.append(ok(rule, 'Meta.%s assigned in the header image (slot computation / checksum, see C02.alternate, C12.seal-last)' % fld, sites=1))
-            continue
-        bb, si, s = st[0]
-        if s['rv']['k'] != 'use':
-            res.append(bad(rule, '%s | Meta.%s computed' % (fn.qual, fld), 'Meta.%s in the header image is not a copy of the transaction\'s field' % fld, where=fn.loc(bb, si)))
-            continue
-        res.append(_same_named(ctx, fn, du, s['rv']['op'], 'Meta', fld, rule, 'commit header image', fn.loc(bb, si)))
+    for fn in builders:
+        du = ctx.du(fn)
+        for fld in fields:
+            st = c02.image_stores(fn, fld)
+            if not st:
+                res.append(bad(rule, '%s | Meta.%s not written into the header image' % (fn.qual, fld),
+                               'the header image built in %s never assigns Meta.%s: the field would be left zero in the file' % (fn.qual, fld), where='%s:%d' % (fn.file, fn.line)))
+                continue
+            if fld in ('meta_page', 'hash'):
+                res.append(ok(rule, 'Meta.%s assigned in the header image (slot computation / checksum, see C02.alternate, C12.seal-last)' % fld, sites=1))
+                continue
+            bb, si, s = st[0]
+            if s['rv']['k'] != 'use':
+                res.append(bad(rule, '%s | Meta.%s computed' % (fn.qual, fld), 'Meta.%s in the header image is not a copy of the transaction\'s field' % fld, where=fn.loc(bb, si)))
+                continue
+            res.append(_same_named(ctx, fn, du, s['rv']['op'], 'Meta', fld, rule, 'commit header image', fn.loc(bb, si)))
     return res
 
 
@@ -311,12 +312,14 @@ def pagesize_refusal(ctx, rule='C15.pagesize-refusal'):
             l = op_local(s['rv']['ops'][0]) if s['rv']['ops'] else None
             if l is None or fn.locals[l]['ty'] not in c12.HANDLE_TYS:
                 continue
-            h = du.root_of(l)
             nsel += 1
-            okk = False
-            for (cb, match_t, hs) in cmps:
-                if h in hs and match_t is not None and bb not in fn.reach_from([0], avoid_edges={(cb, match_t)}):
-                    okk = True
+            okk = True
+            for h in du.roots_of(l):
+                this = False
+                for (cb, match_t, hs) in cmps:
+                    if h in hs and match_t is not None and bb not in fn.reach_from([0], avoid_edges={(cb, match_t)}):
+                        this = True
+                okk = okk and this
             if okk:
                 res.append(ok(rule, 'header selected at %s only behind a page-size comparison whose mismatch edge does not return' % fn.loc(bb, si), sites=1))
             else:
